@@ -221,7 +221,7 @@ func main() {
 			if roleCount[role] < u.Floors[role] {
 				all = append(all, Ob{Rule: u.Rule, Cfg: "D", Func: "-", Construct: "vacuity floor: role " + role,
 					Status: Undecided, StatusText: "undecided", Nontrivial: true,
-					Detail: fmt.Sprintf("rule %s found %d obligation(s) of role %q, fewer than the %d confirmed by reading; the anchor was lost or the construct removed", u.Rule, roleCount[role], role, u.Floors[role])})
+					Detail: fmt.Sprintf("rule %s found %d obligation(s) of role %q, fewer than the vacuity floor %d (about half of what was confirmed by reading on the pinned tree); the anchor was lost or the construct removed", u.Rule, roleCount[role], role, u.Floors[role])})
 			}
 		}
 	}
